@@ -114,4 +114,10 @@ func (t *rtpDownTrack) VerifLossCeiling() (rate uint64, setAt uint64) {
 	return atomic.LoadUint64(&t.maxBitrate.bitrate), atomic.LoadUint64(&t.maxBitrate.jiffies)
 }
 
+// VerifLossCeilingNow is the loss-based ceiling as every user of it reads
+// it (bitrate.Get at the current instant): ^0 means "no recent feedback".
+func (t *rtpDownTrack) VerifLossCeilingNow() uint64 {
+	return t.maxBitrate.Get(rtptime.Jiffies())
+}
+
 func VerifJiffies() uint64 { return rtptime.Jiffies() }
